@@ -10,7 +10,7 @@ from vlib import expr as X
 from vlib import modelgen as G
 from vlib import refsem, oracle, fullcheck
 from vlib.runner import Violation
-from vlib.modules import make_mod, make_scheme_mod, GenError
+from vlib.modules import make_mod, make_scheme_mod, new_generator, GenError
 from props import c06
 
 ID = "C07"
@@ -21,7 +21,7 @@ RULE = (
     "C06's models (rates depending on their own state) x every subset S of the states when n <= 3 (8 subsets), "
     "8 sampled subsets otherwise, always including {} and all; plus foreign names, duplicates and None x scheme "
     "name {hybrid_rush_larsen via get_code; rush_larsen, forward_rush_larsen via get_scheme + CodeGenerator."
-    "scheme} x delta x backend {numpy, C}. Oracle: slot-by-slot the hybrid step must equal (<= 4 ulp) the same "
+    "scheme} x {a fresh generator per request, one CodeGenerator object serving all subsets in turn} x delta x backend {numpy, C}. Oracle: slot-by-slot the hybrid step must equal (<= 4 ulp) the same "
     "model's generated generalized_rush_larsen in the slots of S and its explicit_euler elsewhere, and the "
     "256-bit reference; foreign names / duplicates must not change the emitted function. Non-trivial = a subset "
     "with 0 < |S| < n containing a state with g != 0; distinct by sha1 of the case."
@@ -56,6 +56,8 @@ def strategy(tier):
             "delta": draw(st.sampled_from([1e-8, 1e-8, 0.0, 0.5, 1e3])),
             "dt": draw(st.sampled_from([1e-6, 0.01, 1.0])),
             "foreign": draw(st.sampled_from([[], ["not_a_state"], ["dt", "t"], []])),
+            # one CodeGenerator object serving every subset (a library user's loop) or a fresh one per request
+            "shared_generator": draw(st.booleans()),
         }
 
     return _s()
@@ -65,10 +67,10 @@ def sample_view(case):
     return {"text": X.render_model(case["model"]), **{k: case[k] for k in ("backend", "alias", "delta", "dt", "foreign")}, "subsets": case["subsets"][:4]}
 
 
-def build_hybrid(backend, ode, model, alias, stiff, delta):
-    if alias == "hybrid_rush_larsen":
+def build_hybrid(backend, ode, model, alias, stiff, delta, cg=None):
+    if alias == "hybrid_rush_larsen" and cg is None:
         return make_mod(backend, ode, model, schemes=["hybrid_rush_larsen"], stiff_states=stiff, delta=delta)
-    return make_scheme_mod(backend, ode, model, alias, stiff_states=stiff, delta=delta)
+    return make_scheme_mod(backend, ode, model, alias, cg=cg, stiff_states=stiff, delta=delta)
 
 
 def func_source(code: str, name: str, backend: str) -> str:
@@ -106,9 +108,10 @@ def check_case(case):
     for pt in case["points"]:
         ref_euler.append(base.call("explicit_euler", pt, dt=dt))
         ref_grl.append(base.call("generalized_rush_larsen", pt, dt=dt))
+    shared = new_generator(backend, ode) if case.get("shared_generator") else None
     for S in case["subsets"]:
         stiff_arg = list(S) + list(case["foreign"])
-        mod = gen(build_hybrid, backend, ode, model, alias, stiff_arg if (S or case["foreign"]) else None, delta)
+        mod = gen(build_hybrid, backend, ode, model, alias, stiff_arg if (S or case["foreign"]) else None, delta, shared)
         if not mod.has(alias):
             raise Violation(f"C07:{backend}:missing-function", dict(ctx, code=mod.code))
         c2 = dict(ctx, stiff=stiff_arg, code=mod.code)
@@ -140,7 +143,7 @@ def check_case(case):
                     interesting = True
             exp = fullcheck.expected_scheme(model, pt, dt, "hybrid_rush_larsen", delta=delta, stiff=S)
             n_ok += fullcheck.compare_slots("C07", mod, alias, "state", exp, pt, dt=dt, counters=counters, ctx=c2, K=256.0, classify_rounding=False)
-    labs = [f"backend:{backend}", f"alias:{alias}", f"nsubsets:{len(case['subsets'])}", f"foreign:{bool(case['foreign'])}"]
+    labs = [f"shared-generator:{bool(case.get('shared_generator'))}", f"backend:{backend}", f"alias:{alias}", f"nsubsets:{len(case['subsets'])}", f"foreign:{bool(case['foreign'])}"]
     return {"nontrivial": n_ok > 0 and interesting, "labels": labs, "counters": counters}
 
 
